@@ -599,6 +599,16 @@ func encodeBlock(c *core.Ctx, r *rand.Rand, enc *encoding.TSDEncoder, b *tsdBloc
 		b.data = cp(d)
 		return hx(d)
 	})
+	if b.data != nil && !b.noTime {
+		data := b.data
+		guard(c, "tdt "+hx(data), func() string {
+			s, e := encoding.DecodeTSDTime(data)
+			if int(s) != b.start || int(e) != b.end() {
+				c.Fail("tsd-time-range", fmt.Sprintf("block [%d,%d]: DecodeTSDTime gives [%d,%d]", b.start, b.end(), s, e))
+			}
+			return fmt.Sprintf("%d %d", s, e)
+		})
+	}
 }
 
 // expected observation of a slot-addressed read
@@ -1286,6 +1296,7 @@ func addOffset(c *core.Ctx, enc *encoding.FixedOffsetEncoder, v int) (ok bool) {
 }
 
 func fixedOffsetCase(c *core.Ctx, r *rand.Rand) {
+	byteSlice2Uint32Ops(c, r)
 	var enc *encoding.FixedOffsetEncoder
 	var dec *encoding.FixedOffsetDecoder
 	defer func() {
@@ -1862,6 +1873,7 @@ type putOp struct {
 
 func streamCase(c *core.Ctx, r *rand.Rand) {
 	c.NonTrivial()
+	streamExtCase(c, r)
 	// --- writer, then the same shapes read back
 	w := stream.NewBufferWriter(nil)
 	c.Op("sw new 0", "-")
